@@ -245,8 +245,23 @@ static FWire dispatch(const std::string& comp,Reader& r,FReader&) {
             resid = 0.0;
             for (unsigned i=0;i<n;++i) for (unsigned j=0;j<n;++j) resid = std::max(resid,std::fabs(P(i,j)-(i==j ? 1.0 : 0.0)));
         }
-        out.z = Wire{ST_OK,(ll)n,npot,ndefl,(ll)geo.isolated_parts().size(),(ll)geo.meshes().size()};
-        out.f = { worst, smin, smax, resid };
+        // cavity walls (theorem cavity_wall_indicator_in_kernel): current barrier, not isolated, not deflated
+        double hmax = 0.0; for (size_t k=0;k<H.size();++k) hmax = std::max(hmax,std::fabs(H.data()[k]));
+        double cav = -1.0; ll ncav = 0;
+        for (const auto& m : geo.meshes()) {
+            if (!m.current_barrier() || m.isolated()) continue;
+            bool deflated = false;
+            for (const auto& part : geo.isolated_parts()) for (const auto& mp : part) if (mp==&m && m.outermost()) deflated = true;
+            if (deflated) continue;
+            ++ncav;
+            for (unsigned i=0;i<n;++i) {
+                double s = 0.0;
+                for (const auto& vp : m.vertices()) if (vp->index()<n) s += H(i,vp->index());
+                cav = std::max(cav,std::fabs(s)/hmax);
+            }
+        }
+        out.z = Wire{ST_OK,(ll)n,npot,ndefl,(ll)geo.isolated_parts().size(),(ll)geo.meshes().size(),ncav};
+        out.f = { worst, smin, smax, resid, cav };
         return out;
     }
     throw Reader::Malformed();
